@@ -419,7 +419,7 @@ pub fn main(ctx: &Ctx) -> i32 {
         println!("replay did not reproduce (saw {:?})", out.violations.iter().map(|v| &v.key).collect::<Vec<_>>());
         return 0;
     }
-    let runs: u64 = ctx.tier.pick(32, 320);
+    let runs: u64 = ctx.tier.pick(48, 480);
     let res = crate::core::pool::run_jobs(runs, |idx| {
         let mut out = RunOut::default();
         if idx % 2 == 0 {
